@@ -10,6 +10,7 @@ import (
 	"strings"
 	"sync"
 	"sync/atomic"
+	"time"
 
 	"google.golang.org/genproto/googleapis/api/annotations"
 	"google.golang.org/genproto/googleapis/api/httpbody"
@@ -567,6 +568,29 @@ func (b *beh) stream(ss grpc.ServerStream, cs, sst bool, newIn, newOut func() pr
 		fillReply(out, in, ra)
 		sends++
 		return ss.SendMsg(out)
+	}
+	if a.Recv == "bg" {
+		// receive in another goroutine and return while that Recv is pending
+		started := make(chan struct{})
+		go func() {
+			close(started)
+			for {
+				if err := ss.RecvMsg(newIn()); err != nil {
+					return
+				}
+			}
+		}()
+		<-started
+		time.Sleep(3 * time.Millisecond) // let the goroutine block inside RecvMsg
+		if sst {
+			if err := send(nil); err != nil {
+				return err
+			}
+		}
+		if err := a.err(); err != nil || sst {
+			return err
+		}
+		return send(nil)
 	}
 	if a.AsBody && cs {
 		first := newIn()
